@@ -81,6 +81,9 @@ func (c *Ctx) Expired() bool {
 	return false
 }
 
+// MarkTruncated records that some exploration was cut short by its time slice (never an alarm).
+func (c *Ctx) MarkTruncated() { c.res.Truncated = true }
+
 // Add adds n to a named counter.
 func (c *Ctx) Add(name string, n int64) {
 	c.res.Counters[name] += n
